@@ -22,6 +22,9 @@ type PType struct {
 type PathPayload struct {
 	RoutePayload
 	VarTypes map[string]map[string]PType `json:"varTypes"` // template -> variable name -> type
+	// VarTypesByOp overrides VarTypes for one operation ("METHOD template"): sibling operations of a
+	// path item may declare the same variable differently
+	VarTypesByOp map[string]map[string]PType `json:"varTypesByOp,omitempty"`
 }
 
 // c05: whenever a request is dispatched, Parse() yields for every path parameter the typed value of
@@ -103,6 +106,9 @@ func c05(p *Pkg, _ *Pkg, payload json.RawMessage, res *Result) {
 					}
 					name := ts[1 : len(ts)-1]
 					pt := pl.VarTypes[cur.op.Path][name]
+					if m, ok := pl.VarTypesByOp[cur.op.Method+" "+cur.op.Path]; ok {
+						pt = m[name]
+					}
 					lx := refmodel.Lex(pt.Type, pt.Format, rsegs[i])
 					if rsegs[i] == "" {
 						lx = refmodel.Lexed{V: refmodel.MustFail}
@@ -139,7 +145,7 @@ func c05(p *Pkg, _ *Pkg, payload json.RawMessage, res *Result) {
 					} else if !dontCare {
 						named := false
 						for _, n := range mustFail {
-							if strings.Contains(cur.err.Error(), n) {
+							if ErrNames(cur.err, n) {
 								named = true
 							}
 						}
